@@ -103,6 +103,15 @@ def ret_expr(prog, f):
     return s.at(rets[0]).local(0) if rets else ("unknown",)
 
 
+def array_len(prog, ty):
+    """length of `[u8; N]` where N is a literal or a named constant of the crate; None if it cannot be resolved"""
+    n = ty[5:-1].strip()
+    if n.isdigit():
+        return int(n)
+    hits = [v.get("v") for k, v in prog.consts.items() if k.rsplit("::", 1)[-1] == n.rsplit("::", 1)[-1] and isinstance(v.get("v"), int)]
+    return hits[0] if len(set(hits)) == 1 else None
+
+
 def run(prog, ctx):
     res = Result("C16")
     rnd = random.Random(16)
@@ -129,7 +138,11 @@ def run(prog, ctx):
             res.obligations += 1
             res.undecided += 1      # buffer / counter held in a different shape
             continue
-        block = int(buf[0][1][5:-1])
+        block = array_len(prog, buf[0][1])
+        if block is None:
+            res.obligations += 1
+            res.undecided += 1
+            continue
         s = Sym(prog, f)
         res.functions_analysed += 1
         for c in cnt:
@@ -179,7 +192,9 @@ def run(prog, ctx):
         cnt = [n for n, t in fields if t == "usize"]
         if not buf or len(cnt) != 1:
             continue
-        block = int(buf[0][1][5:-1])
+        block = array_len(prog, buf[0][1])
+        if block is None:
+            continue
         cnt = cnt[0]
         ctor = [g for g in C.fns_of(prog, ty) if g.argc == 1 and not g.promoted and "{closure" not in g.id]
         lenf = None
@@ -292,6 +307,220 @@ def run(prog, ctx):
         except (formula.Uneval, TypeError) as u:
             res.tri(None, "C16.T", "C16.T|%s" % ty, "length accounting of %s not evaluable: %s" % (ty, u), f.id)
     res.rule("C16.T", n_t, 2, "length accounting over write()")
+
+    # ---------------- C16.C every input byte is consumed exactly once: the slices of the input that write() hands to the block
+    # mixer, to the 8-byte reader and to the carry buffer are evaluated on a concrete input of distinct values for every carry fill
+    # and input length (call sites under their path conditions; sites in a `for` over a Range / chunks_exact once per element).
+    # A value consumed twice is a violation; a value never consumed is one when every site could be evaluated.
+    n_c = 0
+
+    def iter_values(itx, env):
+        while itx[0] == "call" and itx[1].rsplit("::", 1)[-1] in ("into_iter", "by_ref", "deref_mut", "iter"):
+            itx = itx[2][0]
+        if itx[0] == "agg" and "Range" in itx[1] and len(itx[2]) == 2:
+            return list(range(formula.evaluate(itx[2][0], env), formula.evaluate(itx[2][1], env)))
+        if itx[0] == "call" and itx[1].rsplit("::", 1)[-1] == "chunks_exact":
+            base = formula.evaluate(itx[2][0], env)
+            n_ = formula.evaluate(itx[2][1], env)
+            if isinstance(base, list) and isinstance(n_, int) and n_ > 0:
+                return [base[i_:i_ + n_] for i_ in range(0, len(base) - n_ + 1, n_)]
+        raise formula.Uneval("iterable " + show(itx)[:60])
+
+    def consumed_by(fnm, args_vals, block):
+        """which input values a call consumes: the whole source of a copy, one block of what the block mixer receives, the bytes the
+        8-byte reader is given"""
+        if fnm == "copy_from_slice":
+            return args_vals[1] if len(args_vals) > 1 and isinstance(args_vals[1], list) else None
+        if fnm == "read_u64_le":
+            return args_vals[0] if isinstance(args_vals[0], list) else None
+        lists = [a for a in args_vals if isinstance(a, list)]
+        if lists:
+            return lists[0][:block]
+        return []
+    for ty, f in sorted(hashers.items()):
+        adt = prog.adts.get(ty)
+        if not adt:
+            continue
+        fields = adt["variants"][0]["fields"]
+        buf = [(n, t) for n, t in fields if t.startswith("[u8; ")]
+        cnt = [n for n, t in fields if t == "usize"]
+        if not buf or len(cnt) != 1:
+            continue
+        block = array_len(prog, buf[0][1])
+        if block is None:
+            continue
+        bufn, cntn = buf[0][0], cnt[0]
+        pname = f.local_name(2) or "bytes"
+        s = Sym(prog, f)
+        loops = s.loops()
+        sites = []
+        for b, site in f.calls():
+            cal = site.get("callee") or ""
+            nm = cal.rsplit("::", 1)[-1]
+            g = prog.fns.get(cal)
+            if not (nm in ("copy_from_slice", "read_u64_le") or (g is not None and g.owner == ty)):
+                continue
+            args = [s.at(b, "t").operand(a) for a in site["args"]]
+            if not any(any(y[0] == "param" and y[1] == 2 for y in sym.walk(a)) for a in args):
+                continue
+            inl = [(h, body) for h, body in loops if b in body]
+            itx = None
+            if inl:
+                h, body = min(inl, key=lambda x: len(x[1]))
+                nxt = [(bb, st_) for bb, st_ in f.calls() if bb in body and (st_.get("callee") or "").endswith("::next")]
+                if len(nxt) == 1:
+                    itx = s.at(nxt[0][0], "t").operand(nxt[0][1]["args"][0])
+            def mk_pred(blk):
+                paths = s.path_conditions(blk)
+
+                def pred(env):
+                    if paths is None:
+                        return None
+                    unknown = False
+                    for pth in paths:
+                        ok = True
+                        for c_, tv in pth:
+                            if "next(" in show(c_):
+                                continue        # loop control: the iterations are enumerated separately
+                            try:
+                                v = formula.evaluate(c_, env)
+                            except (formula.Uneval, TypeError, IndexError, ZeroDivisionError):
+                                ok = None
+                                continue
+                            if isinstance(v, tuple):
+                                ok = None
+                                continue
+                            if (tv[0] == "eq" and v != tv[1]) or (tv[0] == "ne" and v in tv[1]):
+                                ok = False
+                                break
+                        if ok:
+                            return True
+                        if ok is None:
+                            unknown = True
+                    return None if unknown else False
+                return pred
+            sites.append((b, nm, args, itx, bool(inl), mk_pred(b)))
+        n_c += 1
+        verdict, wit, complete = True, "", True
+        try:
+            for b0 in range(block):
+                for ln in (0, 1, block - b0 - 1, block - b0, block - b0 + 1, block, 2 * block - b0, 2 * block + 3, 3 * block + block // 2):
+                    if ln < 0:
+                        continue
+                    data = [1000 + j for j in range(ln)]
+                    env = {"@prog": prog, pname: data, "len(%s)" % pname: ln, "self.%s" % bufn: list(range(block)), "self.%s" % cntn: b0}
+                    seen = {}
+                    for (b, nm, args, itx, inloop, pp) in sites:
+                        r = pp(env)
+                        if r is False:
+                            continue
+                        if r is None:
+                            complete = False
+                            continue
+                        if inloop and itx is None:
+                            complete = False
+                            continue
+                        rounds = [None]
+                        if inloop:
+                            try:
+                                rounds = iter_values(itx, env)
+                            except (formula.Uneval, TypeError):
+                                complete = False
+                                continue
+                        nkey = sorted(set(show(y) for a in args for y in sym.walk(a) if y[0] == "call" and y[1].rsplit("::", 1)[-1] == "next"))
+                        for item in rounds:
+                            env2 = dict(env)
+                            if inloop:
+                                if not nkey:
+                                    complete = False
+                                    break
+                                for k in nkey:
+                                    env2[k] = item
+                                    env2["(%s as Some).0" % k] = item
+                            try:
+                                vals = []
+                                for a in args:
+                                    try:
+                                        vals.append(formula.evaluate(a, env2))
+                                    except (formula.Uneval, TypeError, IndexError):
+                                        vals.append(None)
+                                got = consumed_by(nm, vals, block)
+                            except (formula.Uneval, TypeError):
+                                got = None
+                            if got is None:
+                                complete = False
+                                continue
+                            for v in got:
+                                if isinstance(v, int) and v >= 1000:
+                                    seen[v] = seen.get(v, 0) + 1
+                    dup = sorted(v for v, c_ in seen.items() if c_ > 1)
+                    if dup and verdict:
+                        verdict, wit = False, "with %d byte(s) pending, a write of %d bytes hands input byte %d to the hash more than once" % (b0, ln, dup[0] - 1000)
+                    missing = [v for v in data if v not in seen]
+                    if missing and complete and verdict:
+                        verdict, wit = False, "with %d byte(s) pending, a write of %d bytes never consumes input byte %d (consumed: %d of %d)" % (b0, ln, missing[0] - 1000, len(seen), ln)
+        except (formula.Uneval, TypeError) as u:
+            verdict, wit = None, "not evaluable: %s" % (u,)
+        if verdict and not complete:
+            verdict, wit = None, "some consuming call could not be evaluated"
+        res.tri(verdict, "C16.C", "C16.C|%s" % ty, "%s: %s" % (f.id, wit), f.id, sample={"rule": "C16.C", "fn": f.id, "sites": [(b, nm) for (b, nm, *_r) in sites]})
+    # the same for the tail handling of the finishing routines: no buffered byte is fed to the hash twice (8-byte lanes read through
+    # the little-endian reader inside a counted loop, evaluated on a buffer of distinct values)
+    for ty, wf in sorted(hashers.items()):
+        adt = prog.adts.get(ty)
+        fields = adt["variants"][0]["fields"] if adt else []
+        buf = [(n, t) for n, t in fields if t.startswith("[u8; ")]
+        cnt = [n for n, t in fields if t == "usize"]
+        if not buf or len(cnt) != 1:
+            continue
+        block = array_len(prog, buf[0][1])
+        if block is None:
+            continue
+        bufn, cntn = buf[0][0], cnt[0]
+        for f in C.fns_of(prog, ty):
+            if f.promoted or f.argc != 1 or f.local_ty(1).startswith("&mut") or not any((st.get("callee") or "").endswith("read_u64_le") for _b, st in f.calls()):
+                continue
+            s = Sym(prog, f)
+            loops = s.loops()
+            n_c += 1
+            verdict, wit = True, ""
+            evaluated = 0
+            for b0 in range(block):
+                env = {"@prog": prog, "self.%s" % bufn: [2000 + j for j in range(block)], "self.%s" % cntn: b0, "len(self.%s)" % bufn: block}
+                seen = {}
+                for b, site in f.calls():
+                    if not (site.get("callee") or "").endswith("read_u64_le"):
+                        continue
+                    a = s.at(b, "t").operand(site["args"][0])
+                    inl = [(h, body) for h, body in loops if b in body]
+                    rounds = [None]
+                    nkey = sorted(set(show(y) for y in sym.walk(a) if y[0] == "call" and y[1].rsplit("::", 1)[-1] == "next"))
+                    try:
+                        if inl:
+                            h, body = min(inl, key=lambda x: len(x[1]))
+                            nxt = [(bb, st_) for bb, st_ in f.calls() if bb in body and (st_.get("callee") or "").endswith("::next")]
+                            if len(nxt) != 1 or not nkey:
+                                continue
+                            rounds = iter_values(s.at(nxt[0][0], "t").operand(nxt[0][1]["args"][0]), env)
+                        for item in rounds:
+                            env2 = dict(env)
+                            for k in nkey:
+                                env2[k] = item
+                            got = formula.evaluate(a, env2)
+                            if isinstance(got, list):
+                                evaluated += 1
+                                for v in got:
+                                    if isinstance(v, int) and v >= 2000:
+                                        seen[v] = seen.get(v, 0) + 1
+                    except (formula.Uneval, TypeError, IndexError):
+                        continue
+                dup = sorted(v for v, c_ in seen.items() if c_ > 1)
+                if dup and verdict:
+                    verdict, wit = False, "with %d byte(s) in the carry buffer, buffered byte %d is read into the hash more than once" % (b0, dup[0] - 2000)
+            if verdict and not evaluated:
+                verdict, wit = None, "no tail read could be evaluated"
+            res.tri(verdict, "C16.C", "C16.C|%s" % f.id, "%s: %s" % (f.id, wit), f.id)
+    res.rule("C16.C", n_c, 2, "input bytes consumed exactly once by write() / buffered bytes by the finishing routine")
 
     # ---------------- C16.K mixing functions
     n_k = 0
@@ -477,6 +706,14 @@ def run(prog, ctx):
 
     # ---------------- C16.D derivations
     n_d = 0
+    # which fields of the murmur state carry the seed: those the seeding constructor fills from its parameter
+    murmur_seed_idx = []
+    for g_ in prog.fns.values():
+        if g_.promoted or not (g_.owner or "").endswith("MurmurHash3X64128") or g_.argc != 1 or g_.local_ty(1) != "u64":
+            continue
+        eg_ = ret_expr(prog, g_)
+        if eg_ is not None and eg_[0] == "agg":
+            murmur_seed_idx = [i_ for i_, x_ in enumerate(eg_[2]) if x_[0] == "param"]
     fc = prog.fns.get("hll::coupon")
     if fc is not None:
         e = ret_expr(prog, fc)
@@ -495,7 +732,7 @@ def run(prog, ctx):
                 res.violate("C16.D", "C16.D|coupon", "hll::coupon is %s, expected ((min(lz(h2),62)+1) << 26) | (h1 & (2^26-1)): %s" % (show(e)[:120], cex), fc.id)
             else:
                 res.undecided += 1
-            seeds = [t[2][0] for t in sym.walk(e) if t[0] == "agg" and "MurmurHash3X64128" in t[1] and t[2]]
+            seeds = [t[2][i_] for t in sym.walk(e) if t[0] == "agg" and "MurmurHash3X64128" in t[1] and t[2] for i_ in murmur_seed_idx if i_ < len(t[2])]
             if any(x == ("const", 9001) for x in seeds):
                 res.discharged += 1
             elif seeds and all(x[0] == "const" for x in seeds):
@@ -511,14 +748,14 @@ def run(prog, ctx):
         n_d += 1
         res.obligations += 1
         lv = [k for k in formula.leaves(e) if "finish128" in k and k.endswith(".0")]
-        seeded0 = sym.contains(e, lambda t: t[0] == "agg" and "MurmurHash3X64128" in t[1] and t[2][0] == ("const", 0))
+        seeded0 = None if not murmur_seed_idx else sym.contains(e, lambda t: t[0] == "agg" and "MurmurHash3X64128" in t[1] and all(i_ < len(t[2]) and t[2][i_] == ("const", 0) for i_ in murmur_seed_idx))
         wrote = any((st.get("callee") or "").endswith("Hasher>::write") and "to_le_bytes" in show(s.operand(st["args"][1])) and "seed" in show(s.operand(st["args"][1])) for _, st in fs.calls())
         ok = None
         if lv:
             ok, cex, n, why = formula.equivalent(e, lambda env: env[lv[0]] & 0xffff, [{lv[0]: rnd.getrandbits(64)} for _ in range(32)])
         if ok and seeded0 and wrote:
             res.discharged += 1
-        elif ok is None:
+        elif ok is None or seeded0 is None:
             res.undecided += 1
         else:
             res.violate("C16.D", "C16.D|seed-hash", "compute_seed_hash is no longer murmur(seed.to_le_bytes(), seed 0).h1 & 0xffff (%s)" % show(e)[:100], fs.id)
